@@ -17,7 +17,7 @@ func (f *Dynamic) String() string {
 func (f *Dynamic) Append(b []byte) []byte {
 	b = append(b, '(')
 	if 0 < len(f.Name) {
-		b = append(b, f.Name...)
+		b = printer.Append(b, Symbol(FuncPrintName(f)), 0)
 	} else {
 		b = f.Self.(Object).Append(b)
 	}
@@ -60,7 +60,7 @@ func (f *Dynamic) Simplify() any {
 func (obj *Dynamic) LoadForm() Object {
 	form := make(List, len(obj.Args)+1)
 	if 0 < len(obj.Name) {
-		form[0] = Symbol(obj.Name)
+		form[0] = Symbol(FuncPrintName(obj))
 	} else {
 		lambda := List{Symbol("lambda")}
 		lc := obj.Self.(*Lambda)
